@@ -71,4 +71,19 @@ Record cls := { c_kind : kind; c_oop : body; c_ip : body }.
    SvGuarded   : every term with a zero coefficient is skipped *)
 Inductive small_variant := SvUnguarded | SvZeroZero | SvGuarded.
 
+(* Operator.__new__: which function fills the slots `_call_in_place` / `_call_out_of_place` *)
+Inductive slot := SlCall | SlDefaultIp | SlDefaultOop.
+(* the statements of Operator.__call__, _default_call_out_of_place and _default_call_in_place, in source order *)
+Inductive step :=
+| StCastX                 (* if x not in self.domain: x = self.domain.element(x), else OpDomainError *)
+| StCheckOut              (* if out not in self.range: raise OpRangeError *)
+| StNoOutForFunctional    (* if self.is_functional: raise TypeError *)
+| StCallIp                (* result = self._call_in_place(x, out=out) *)
+| StCheckReturn           (* if result is not None and result is not out: raise ValueError *)
+| StCallOop               (* out = self._call_out_of_place(x) *)
+| StCastResult            (* if out not in self.range: out = self.range.element(out), else OpRangeError *)
+| StNewOut                (* out = op.range.element() *)
+| StAssignCastOop         (* out.assign(op.range.element(op._call_out_of_place(x))) *)
+| StReturnOut.
+
 Definition no_body : body := {| b_st := []; b_ret := RetNone |}.
